@@ -228,14 +228,14 @@ def run_item(item):
                     st.violation(kind, f'[{w}] ' + detail, {'w': w, 'prefix': list(prefix)})
             try:
                 if nsh == 1:
-                    tx.explore(run_one, pb, on_exec=on_exec, fbound=fb)
+                    tx.explore(run_one, pb, on_exec=on_exec, fbound=fb, stop=lambda: st.extra.get('violations_total', 0) >= 12)
                 else:
                     root = run_one((), None)
                     if shard == 0:
                         on_exec((), root)
                     for i, kid in enumerate(tx.children(root.choices, 0, pb, fb)):
                         if i % nsh == shard:
-                            tx.explore(run_one, pb, root=kid, on_exec=on_exec, fbound=fb)
+                            tx.explore(run_one, pb, root=kid, on_exec=on_exec, fbound=fb, stop=lambda: st.extra.get('violations_total', 0) >= 12)
             except tx.Divergence as e:
                 raise common.MachineryError(f'world {w}: {e}')
         if not shard:
